@@ -113,4 +113,142 @@ theorem limit_clip_total (n : Int) (m : Nat) (hn : 0 ≤ n) (hm : 0 < m) :
   refine ⟨clip_fixed hn m, fun h => ?_⟩
   unfold maxInt64; omega
 
+/-! ## MultiReaderCloser -/
+
+/-- Sources that all end in EOF: the consumer receives exactly their concatenation, then EOF —
+for every script of every source and every sequence of consumer buffer sizes. -/
+theorem multi_concat (srcs : List Src) (bufs : List Nat) (dflt : Nat)
+    (hc : ∀ s ∈ srcs, s.closes = 0) (hd : 0 < dflt) (heof : ∀ s ∈ srcs, s.term = .eof) :
+    ((Multi.new srcs).consume bufs dflt).2 = ((srcs.map (·.rest)).flatten, .eof) := by
+  rw [(Multi.consume_spec srcs bufs dflt hc hd).1]
+  clear hc
+  induction srcs with
+  | nil => rfl
+  | cons s ss ih =>
+    have h1 : s.term = .eof := heof s (by simp)
+    have h2 := ih (fun x hx => heof x (by simp [hx]))
+    simp [multiSpec, h1, h2]
+
+example : ∃ srcs : List Src, (∀ s ∈ srcs, s.closes = 0) ∧ (∀ s ∈ srcs, s.term = .eof) ∧
+    srcs.length = 2 ∧ (∀ s ∈ srcs, s.rest ≠ [] ∧ s.script ≠ []) :=
+  ⟨[{ rest := [1, 2], script := [1, 0, 1], withData := true, term := .eof, closable := true, closes := 0 },
+    { rest := [3], script := [0, 1], withData := false, term := .eof, closable := false, closes := 0 }],
+    by decide⟩
+
+/-- In general (a source may end in an error): the consumer receives the concatenation of the
+sources up to and including the first failing one, then that error (`multiSpec`). -/
+theorem multi_concat_until_error (srcs : List Src) (bufs : List Nat) (dflt : Nat)
+    (hc : ∀ s ∈ srcs, s.closes = 0) (hd : 0 < dflt) :
+    ((Multi.new srcs).consume bufs dflt).2 = multiSpec srcs :=
+  (Multi.consume_spec srcs bufs dflt hc hd).1
+
+example : multiSpec
+    [{ rest := [1, 2], script := [1], withData := true, term := .eof, closable := true, closes := 0 },
+     { rest := [3], script := [], withData := false, term := .boom, closable := true, closes := 0 },
+     { rest := [4], script := [], withData := false, term := .eof, closable := true, closes := 0 }]
+    = ([1, 2, 3], .boom) := by decide
+
+/-- Read path: after the stream was consumed (to EOF or to an error) and `Close` was called, every
+source that is a closer has been closed exactly once, the others never, and nothing is left. -/
+theorem multi_closes_each_once_read (srcs : List Src) (bufs : List Nat) (dflt : Nat)
+    (hc : ∀ s ∈ srcs, s.closes = 0) (hd : 0 < dflt) :
+    ((Multi.new srcs).consume bufs dflt).1.close.closeCounts
+        = srcs.map (fun s => if s.closable then 1 else 0) ∧
+    ((Multi.new srcs).consume bufs dflt).1.close.readers = [] ∧
+    ((Multi.new srcs).consume bufs dflt).1.close.close.closeCounts
+        = srcs.map (fun s => if s.closable then 1 else 0) := by
+  have hI := (Multi.consume_spec srcs bufs dflt hc hd).2
+  obtain ⟨h1, h2⟩ := Multi.close_counts hI
+  refine ⟨by rw [h1]; simp, h2, ?_⟩
+  -- a second Close finds nothing to close
+  simp only [Multi.close, Multi.closeCounts, List.map_nil, List.append_nil] at h1 ⊢
+  rw [h1]; simp
+
+/-- WriteTo path (what `io.Copy` uses), any writer (even a failing one): after `WriteTo` and
+`Close`, every source that is a closer has been closed exactly once. -/
+theorem multi_closes_each_once_writeTo (srcs : List Src) (w : Wr)
+    (hc : ∀ s ∈ srcs, s.closes = 0) :
+    ((Multi.new srcs).writeTo .fixed w).1.close.closeCounts
+        = srcs.map (fun s => if s.closable then 1 else 0) ∧
+    ((Multi.new srcs).writeTo .fixed w).1.close.readers = [] := by
+  have hwt : (Multi.new srcs).writeTo .fixed w = Multi.writeLoop .fixed srcs [] w := rfl
+  rw [hwt]
+  obtain ⟨h1, h2, h3⟩ := Multi.writeLoop_inv srcs [] w hc (by simp)
+  have hI : Multi.Inv (srcs.map (·.closable)) (Multi.writeLoop .fixed srcs [] w).1 :=
+    ⟨h1, h2, by simpa using h3⟩
+  obtain ⟨h4, h5⟩ := Multi.close_counts hI
+  exact ⟨by rw [h4]; simp, h5⟩
+
+/-- WriteTo path, writer that never fails: the writer receives the concatenation (up to the first
+failing source) and `WriteTo` returns nil exactly when the stream ended in EOF. -/
+theorem multi_writeTo_concat (srcs : List Src) (w : Wr)
+    (hc : ∀ s ∈ srcs, s.closes = 0) (hw : w.cap = none) :
+    ((Multi.new srcs).writeTo .fixed w).2.1.got = w.got ++ (multiSpec srcs).1 ∧
+    ((Multi.new srcs).writeTo .fixed w).2.2 = errOfTerm (multiSpec srcs).2 := by
+  obtain ⟨h1, h2⟩ := Multi.writeLoop_good srcs [] w hc hw
+  exact ⟨by rw [show (Multi.new srcs).writeTo .fixed w = Multi.writeLoop .fixed srcs [] w from rfl, h1], h2⟩
+
+def twoClosers : List Src :=
+  [{ rest := [1, 2], script := [], withData := false, term := .eof, closable := true, closes := 0 },
+   { rest := [3, 4], script := [], withData := true, term := .eof, closable := true, closes := 0 }]
+
+def goodWriter : Wr := { got := [], cap := none, closable := false, closes := 0 }
+
+/-- Code as found: `io.Copy(w, NewMultiReaderCloser(a, b))` then `Close` copies everything but
+leaves both sources unclosed (replayed on the implementation by the harness). -/
+theorem writeto_unclosed_witness :
+    ((Multi.new twoClosers).writeTo .orig goodWriter).2.1.got = [1, 2, 3, 4] ∧
+    ((Multi.new twoClosers).writeTo .orig goodWriter).1.close.closeCounts = [0, 0] := by decide
+
+example : ((Multi.new twoClosers).writeTo .fixed goodWriter).1.close.closeCounts = [1, 1] := by decide
+
+/-! ## TeeReadCloser -/
+
+/-- The consumer receives the source's bytes and terminal unchanged and the writer receives
+exactly the same bytes; if the writer fails first (it accepts only `c` more bytes, `c < |source|`)
+both have received exactly the first `c` bytes and the consumer sees the writer's error, never a
+clean EOF.  After `Close` the source has been closed exactly once if it is a closer. -/
+theorem tee_preserves_and_copies (s : Src) (w : Wr) (bufs : List Nat) (dflt : Nat)
+    (hc : s.closes = 0) (hd : 0 < dflt) :
+    ((Tee.new s w).consume bufs dflt).2 = cut w.cap (s.rest, s.term) ∧
+    ((Tee.new s w).consume bufs dflt).1.w.got = w.got ++ ((Tee.new s w).consume bufs dflt).2.1 ∧
+    ((Tee.new s w).consume bufs dflt).1.close.src.closes = (if s.closable then 1 else 0) ∧
+    ((Tee.new s w).consume bufs dflt).1.close.close.src.closes = (if s.closable then 1 else 0) := by
+  obtain ⟨h1, hr, hw, hcl, hclos, hgot⟩ := Tee.consume_spec s w bufs dflt hc hd
+  refine ⟨h1, by rw [hgot, h1], ?_, ?_⟩
+  · simp only [Tee.close, hr, ↓reduceIte, Src.closeIfCloser, hclos, Src.close]
+    split <;> simp [hcl]
+  · simp only [Tee.close, hr, ↓reduceIte, Src.closeIfCloser, hclos, Src.close, Bool.false_eq_true]
+    split <;> simp [hcl]
+
+/-- writer that never fails, or has room for the whole source: bytes and terminal unchanged -/
+theorem tee_preserves (s : Src) (w : Wr) (bufs : List Nat) (dflt : Nat)
+    (hc : s.closes = 0) (hd : 0 < dflt) (hroom : ∀ c, w.cap = some c → s.rest.length ≤ c) :
+    ((Tee.new s w).consume bufs dflt).2 = (s.rest, s.term) ∧
+    ((Tee.new s w).consume bufs dflt).1.w.got = w.got ++ s.rest := by
+  obtain ⟨h1, h2, _⟩ := tee_preserves_and_copies s w bufs dflt hc hd
+  have : cut w.cap (s.rest, s.term) = (s.rest, s.term) := by
+    cases hcap : w.cap with
+    | none => rfl
+    | some c => simp [cut, hroom c hcap]
+  rw [this] at h1
+  exact ⟨h1, by rw [h2, h1]⟩
+
+/-- failing writer: a prefix, equal on both sides, ended by the writer's error -/
+theorem tee_failing_writer_prefix (s : Src) (w : Wr) (c : Nat) (bufs : List Nat) (dflt : Nat)
+    (hc : s.closes = 0) (hd : 0 < dflt) (hcap : w.cap = some c) (hlt : c < s.rest.length) :
+    ((Tee.new s w).consume bufs dflt).2 = (s.rest.take c, .wfail) ∧
+    ((Tee.new s w).consume bufs dflt).1.w.got = w.got ++ s.rest.take c := by
+  obtain ⟨h1, h2, _⟩ := tee_preserves_and_copies s w bufs dflt hc hd
+  have : cut w.cap (s.rest, s.term) = (s.rest.take c, .wfail) := by
+    have : ¬ s.rest.length ≤ c := by omega
+    simp [cut, hcap, this]
+  rw [this] at h1
+  exact ⟨h1, by rw [h2, h1]⟩
+
+example : ∃ (s : Src) (w : Wr) (c : Nat), s.closes = 0 ∧ w.cap = some c ∧ c < s.rest.length ∧ 0 < c ∧
+    s.script ≠ [] :=
+  ⟨{ rest := [1, 2, 3, 4, 5], script := [2, 0, 2], withData := true, term := .eof, closable := true, closes := 0 },
+   { got := [], cap := some 3, closable := true, closes := 0 }, 3, by decide⟩
+
 end Kit.Streams
